@@ -370,9 +370,16 @@ int main(int argc, char ** argv) {
         execute(argv[2], (const unsigned char *) argv[3], (int) strlen(argv[3]));
         printf("%s \"%s\": input=%d called=%d ret=%d errs=[", argv[2], argv[3], input_ret, res.called, res.ret);
         for (i = 0; i < nerrs; i++) printf("%s%d", i ? "," : "", errs[i]);
-        printf("] i32=%d u32=%u i64=%lld u64=%llu flt=%.9g dbl=%.17g num={special=%d value=%.17g tag=%d unit=%s base=%d} bool=%d\n",
-               (int) res.i32, (unsigned) res.u32, (long long) res.i64, (unsigned long long) res.u64, (double) res.f, res.d,
-               (int) res.num.special, res.num.content.value, (int) res.num.content.tag, unit_name(res.num.unit), (int) res.num.base, (int) res.b);
+        printf("] ");
+        if (!strcmp(argv[2], "I32")) printf("value=%d\n", (int) res.i32);
+        else if (!strcmp(argv[2], "U32")) printf("value=%u\n", (unsigned) res.u32);
+        else if (!strcmp(argv[2], "I64")) printf("value=%lld\n", (long long) res.i64);
+        else if (!strcmp(argv[2], "U64")) printf("value=%llu\n", (unsigned long long) res.u64);
+        else if (!strcmp(argv[2], "FLT")) printf("value=%.9g\n", (double) res.f);
+        else if (!strcmp(argv[2], "DBL")) printf("value=%.17g\n", res.d);
+        else if (!strcmp(argv[2], "BOOL")) printf("value=%d\n", (int) res.b);
+        else if (res.num.special) printf("special tag=%d\n", (int) res.num.content.tag);
+        else printf("value=%.17g unit=%s base=%d\n", res.num.content.value, unit_name(res.num.unit), (int) res.num.base);
         return 0;
     }
     fprintf(stderr, "usage: drv_numeric run <cases> <mismatches> [verbose] | one <KIND> <text>\n");
